@@ -623,7 +623,7 @@ def main(argv):
                        'Driver/C10.lean'],
         harness_name='c10', harness_sources=[os.path.join(C.VERIF, 'harness', 'c10.cpp')],
         gen_ops=gen_ops, monitor=monitor, nontrivial=nontrivial, extra_stage=extra_stage,
-        n_quick=(8, 8, 250, 250), n_thorough=(8, 8, 4000, 4000), search_factor=2,
+        n_quick=(8, 8, 250, 250), n_thorough=(9, 11, 6000, 6000), search_factor=2,
         trusted_base=[
             'Lean 4.33 kernel + Mathlib (axioms: propext, Classical.choice, Quot.sound)',
             'gen/cxxparse.py + gen/lean_emit.py + gen/gen_c10.py (translator: r_succ/r_pred, ring_head/tail, '
@@ -645,8 +645,8 @@ def main(argv):
                      'on every run)',
                      'within capacity: add_column only with num_columns() < m, remove_column only with '
                      'num_columns() > 0 (the C++ asserts are compiled out under NDEBUG)'],
-        rule='exhaustive: every word over {add, remove, reset, scale} within capacity up to length 6 (quick; plus '
-             'every word over {add, remove} up to length 8) / 8 (thorough) for capacities m∈{1,2,3} × dimensions n∈{1,2,3,4} (m > n included: the (n+1)-th '
+        rule='exhaustive: every word over {add, remove, reset, scale} within capacity up to length 8 (quick) / 9 '
+             '(thorough; plus every word over {add, remove} up to length 11) for capacities m∈{1,2,3} × dimensions n∈{1,2,3,4} (m > n included: the (n+1)-th '
              'column is necessarily dependent), one DFS with push/pop, a solve after every node; seeded random '
              'QR sequences n ≤ 6, m ≤ 5 (well-conditioned, nearly dependent 1e-12…1e-2, wide dynamic range, '
              'degenerate: zero / repeated columns, m > n overflow) and Anderson runs on noisy affine contractions '
